@@ -124,7 +124,7 @@ Section Doc.
         | XElt _ _ atts txt kids =>
             xsi_ok atts
             && if is_nil_att atts then
-                 no_text txt && is_nil_list kids && is_nil_list (plain_atts atts) && nil_ok U t
+                 no_text txt && is_nil_list kids && is_nil_list (plain_atts atts) && (negb nillable || nil_ok U t)
                else
                  match t with
                  | DLeaf st =>
